@@ -11,9 +11,9 @@ Model of the local web server of samply (C18): `samply/src/server.rs`.
   `Access-Control-Request-Headers`, and whether the body is valid UTF-8 (`expect("invalid utf-8")`,
   server.rs:352). The two `expect`s of the function are explicit `Outcome.panic` results (the tokio
   task of the connection dies; the client sees the connection closed without a response).
-* `pathOfTarget` is the specification-side reading of an HTTP/1.1 request-target (RFC 9112 §3.2) as the
-  `http` crate performs it (`Uri::path`): it is *not* part of server.rs; it is used by the driver and the
-  judge to get from the bytes on the wire to the path the service function sees.
+* `pathOfTarget` follows `http::Uri::from_shared` + `Uri::path` (crate http 1.3.1), the parser hyper
+  applies to the request-target: it is *not* part of server.rs; it is used by the driver and the judge to
+  get from the bytes on the wire to the path the service function sees.
 
 Text is `List Char` (ASCII on the wire), so that prefix stripping kernel-reduces.
 Core Lean only (linked into the driver executable).
@@ -98,17 +98,56 @@ inductive Method
   | other  -- any other (extension) method token; method names are case-sensitive, `get` is `other`
 deriving Repr, DecidableEq
 
+/-! ### The header map (`http::HeaderMap` as hyper fills it)
+
+Every header field of the request in wire order, name and value as sent. `HeaderMap` compares names
+ASCII-case-insensitively (hyper lower-cases them while parsing); `get` returns the FIRST value of a
+name, `contains_key` says whether there is one. The service function performs exactly two look-ups
+(server.rs:289-291 `contains_key(ACCESS_CONTROL_REQUEST_METHOD)`, :303
+`get(ACCESS_CONTROL_REQUEST_HEADERS)`); every other header — `Origin`, `Host`, `Referer`, `Cookie`,
+`Authorization`, … — is in the map and is never read. -/
+
+abbrev Headers := List (List Char × List Char)
+
+def lowerAscii (c : Char) : Char :=
+  if 65 ≤ c.toNat ∧ c.toNat ≤ 90 then Char.ofNat (c.toNat + 32) else c
+
+/-- header names are equal up to ASCII case -/
+def hdrNameEq (a b : List Char) : Bool := a.map lowerAscii == b.map lowerAscii
+
+/-- `HeaderMap::get(name)`: the first value stored under the name -/
+def hdrGet : Headers → List Char → Option (List Char)
+  | [], _ => none
+  | (n, v) :: rest, name => if hdrNameEq n name then some v else hdrGet rest name
+
+/-- `HeaderMap::contains_key(name)` -/
+def hdrContains (hs : Headers) (name : List Char) : Bool := (hdrGet hs name).isSome
+
+/-- `header::ACCESS_CONTROL_REQUEST_METHOD` -/
+def acrmName : List Char :=
+  ['a','c','c','e','s','s','-','c','o','n','t','r','o','l','-','r','e','q','u','e','s','t','-',
+   'm','e','t','h','o','d']
+
+/-- `header::ACCESS_CONTROL_REQUEST_HEADERS` -/
+def acrhName : List Char :=
+  ['a','c','c','e','s','s','-','c','o','n','t','r','o','l','-','r','e','q','u','e','s','t','-',
+   'h','e','a','d','e','r','s']
+
 structure Req where
   method : Method
   /-- `req.uri().path()` exactly as hyper delivers it -/
   path : List Char
-  /-- header `Access-Control-Request-Method` present -/
-  hasACRM : Bool
-  /-- first value of `Access-Control-Request-Headers`, if any -/
-  acrh : Option (List Char)
+  /-- `req.headers()`: all header fields of the request, in wire order -/
+  headers : Headers
   /-- the body is valid UTF-8 -/
   bodyUtf8 : Bool
 deriving Repr, DecidableEq
+
+/-- server.rs:289-291 `req.headers().contains_key(header::ACCESS_CONTROL_REQUEST_METHOD)` -/
+def Req.hasACRM (req : Req) : Bool := hdrContains req.headers acrmName
+
+/-- server.rs:303 `req.headers().get(header::ACCESS_CONTROL_REQUEST_HEADERS)` (first value) -/
+def Req.acrh (req : Req) : Option (List Char) := hdrGet req.headers acrhName
 
 structure ProfileFile where
   /-- file name ends in `.gz` -/
@@ -223,27 +262,279 @@ def service (cfg : Cfg) (req : Req) : Outcome :=
       else .panic  -- :352 `.expect("invalid utf-8")`
     | _ => .resp { r0 with status := 404 }  -- :357-359
 
-/-! ## Request-target → path (specification side; the `http` crate's `Uri::path`) -/
+/-! ## Request-target → path: `http::Uri::from_shared` + `Uri::path` (crate http 1.3.1)
+
+hyper hands the request-target of the request line to `http::Uri::from_maybe_shared`
+(hyper 1.6.0 `proto/h1/role.rs:209-212`) and the service function reads `req.uri().path()`.
+`pathOfTarget` follows that parser branch by branch (`uri/mod.rs:292-341` `from_shared`, `:838-895`
+`parse_full`, `uri/scheme.rs` `Scheme2::parse`, `uri/authority.rs` `Authority::parse`, `uri/path.rs`
+`PathAndQuery::from_shared` and `path`); `none` = the parser fails and hyper answers 400 without calling
+the service function. The target is a `List Char` (a valid UTF-8 string; the parser works on bytes:
+every test it makes on a byte ≥ 0x80 is the same for all bytes of a non-ASCII character, and content
+after the first `#` is never looked at). Tied to the real crate by an in-process differential run
+(`uri` ops) over arbitrary byte strings and by every request sent over the wire. -/
+
+/-- `/`, `?`, `#`: the characters that end the authority -/
+def isSep (c : Char) : Bool := c = '/' || c = '?' || c = '#'
 
 def isPathEnd (c : Char) : Bool := c = '?' || c = '#'
 
-def httpScheme : List Char := ['h','t','t','p',':','/','/']
+/-- byte length of the string -/
+def utf8Len (t : List Char) : Nat := (t.map Char.utf8Size).sum
 
-/-- `none`: hyper answers `400 Bad Request` itself, the service function is not called. -/
+def isAlnum (c : Char) : Bool :=
+  (48 ≤ c.toNat && c.toNat ≤ 57) || (65 ≤ c.toNat && c.toNat ≤ 90) || (97 ≤ c.toNat && c.toNat ≤ 122)
+
+/-- `SCHEME_CHARS[b] != 0` and `!= b':'` (scheme.rs:205-233): alphanumerics and `+ - . ~` -/
+def schemeChar (c : Char) : Bool := isAlnum c || c = '+' || c = '-' || c = '.' || c = '~'
+
+/-- `URI_CHARS[b] != 0` (uri/mod.rs:153-181), apart from the characters `Authority::parse` treats
+specially (`/ ? # : [ ] @`) -/
+def uriChar (c : Char) : Bool :=
+  isAlnum c || c = '!' || c = '$' || c = '&' || c = '\'' || c = '(' || c = ')' || c = '*' || c = '+' ||
+  c = ',' || c = '-' || c = '.' || c = ';' || c = '=' || c = '_' || c = '~'
+
+inductive SchemeRes
+  | none                               -- `Scheme2::None`
+  | err                                -- `SchemeTooLong`
+  | found (scheme rest : List Char)    -- the target is `scheme ++ "://" ++ rest`
+deriving Repr, DecidableEq
+
+def ciEq (c lo up : Char) : Bool := c = lo || c = up
+
+/-- scheme.rs:236-243 `s.len() >= 7 && s[..7].eq_ignore_ascii_case(b"http://")` -/
+def httpPrefix : List Char → Option (List Char × List Char)
+  | a :: b :: c :: d :: ':' :: '/' :: '/' :: rest =>
+    if ciEq a 'h' 'H' && ciEq b 't' 'T' && ciEq c 't' 'T' && ciEq d 'p' 'P' then some ([a, b, c, d], rest)
+    else none
+  | _ => none
+
+/-- scheme.rs:245-250 `s.len() >= 8 && s[..8].eq_ignore_ascii_case(b"https://")` -/
+def httpsPrefix : List Char → Option (List Char × List Char)
+  | a :: b :: c :: d :: e :: ':' :: '/' :: '/' :: rest =>
+    if ciEq a 'h' 'H' && ciEq b 't' 'T' && ciEq c 't' 'T' && ciEq d 'p' 'P' && ciEq e 's' 'S' then
+      some ([a, b, c, d, e], rest)
+    else none
+  | _ => none
+
+/-- scheme.rs:252-282: scan for `:` over scheme characters; `i` = index of the current byte -/
+def schemeScan : List Char → Nat → SchemeRes
+  | [], _ => .none
+  | c :: r, i =>
+    if c = ':' then
+      match r with
+      | '/' :: '/' :: rest => if i > 64 then .err else .found [] rest   -- `MAX_SCHEME_LEN`
+      | _ => .none   -- "not enough data remaining" / "not a scheme"
+    else if schemeChar c then
+      match schemeScan r (i + 1) with
+      | .found sch rest => .found (c :: sch) rest
+      | x => x
+    else .none   -- "invalid scheme character, abort"
+
+/-- `Scheme2::parse` (scheme.rs:236-285) -/
+def schemeOf (t : List Char) : SchemeRes :=
+  match httpPrefix t with
+  | some (sch, rest) => .found sch rest
+  | none =>
+    match httpsPrefix t with
+    | some (sch, rest) => .found sch rest
+    | none => if utf8Len t > 3 then schemeScan t 0 else .none
+
+structure AuthSt where
+  colons : Nat
+  startBracket : Bool
+  endBracket : Bool
+  hasPercent : Bool
+  atSign : Option Nat
+deriving Repr, DecidableEq
+
+/-- the loop of `Authority::parse` (authority.rs:75-134); `none` = `InvalidAuthority` / `InvalidUriChar` -/
+def authScan : List Char → Nat → AuthSt → Option (Nat × AuthSt)
+  | [], i, st => some (i, st)
+  | c :: r, i, st =>
+    if isSep c then some (i, st)
+    else if c = ':' then
+      if st.colons ≥ 8 then none else authScan r (i + 1) { st with colons := st.colons + 1 }
+    else if c = '[' then
+      if st.hasPercent || st.startBracket then none else authScan r (i + 1) { st with startBracket := true }
+    else if c = ']' then
+      if !st.startBracket || st.endBracket then none
+      else authScan r (i + 1) { st with endBracket := true, colons := 0, hasPercent := false }
+    else if c = '@' then authScan r (i + 1) { st with atSign := some i, colons := 0, hasPercent := false }
+    else if c = '%' then authScan r (i + 1) { st with hasPercent := true }
+    else if uriChar c then authScan r (i + 1) st
+    else none
+
+/-- `Authority::parse` (authority.rs:66-156): the index where the authority ends -/
+def authorityEnd (s : List Char) : Option Nat :=
+  match authScan s 0 ⟨0, false, false, false, none⟩ with
+  | none => none
+  | some (e, st) =>
+    if st.startBracket != st.endBracket then none        -- :136
+    else if st.colons > 1 then none                      -- :140 'localhost:8080:3030'
+    else if e > 0 && st.atSign == some (e - 1) then none  -- :145 nothing after an `@`
+    else if st.hasPercent then none                      -- :150
+    else some e
+
+/-- path.rs:48-65: bytes that may stand in a path (incl. the tolerated `" { }` and bytes ≥ 0x7F) -/
+def pathCharOk (c : Char) : Bool :=
+  let n := c.toNat
+  n = 0x21 || (0x24 ≤ n && n ≤ 0x3B) || n = 0x3D || (0x40 ≤ n && n ≤ 0x5F) || (0x61 ≤ n && n ≤ 0x7A) ||
+  n = 0x7C || n = 0x7E || 0x7F ≤ n || c = '"' || c = '{' || c = '}'
+
+/-- path.rs:88-106: bytes that may stand in a query -/
+def queryCharOk (c : Char) : Bool :=
+  let n := c.toNat
+  n = 0x21 || (0x24 ≤ n && n ≤ 0x3B) || n = 0x3D || (0x3F ≤ n && n ≤ 0x7E) || 0x7F ≤ n
+
+/-- the query loop (path.rs:85-110): up to the first `#` -/
+def queryOk : List Char → Bool
+  | [] => true
+  | c :: r => if c = '#' then true else queryCharOk c && queryOk r
+
+/-- `PathAndQuery::from_shared` + `PathAndQuery::path` without the "empty reads as /" rule
+(path.rs:22-129, 206-212): the path part, `none` = `InvalidUriChar` -/
+def pathScan : List Char → Option (List Char)
+  | [] => some []
+  | c :: r =>
+    if c = '?' then (if queryOk r then some [] else none)
+    else if c = '#' then some []
+    else if pathCharOk c then (pathScan r).map (c :: ·)
+    else none
+
+/-- `parse_full` (uri/mod.rs:838-895) followed by `Uri::path` (:438-444) -/
+def parseFull (t : List Char) : Option (List Char) :=
+  match schemeOf t with
+  | .err => none
+  | .none =>
+    -- authority-form: the whole target must be an authority; `Uri::path()` is "" (no scheme, no path)
+    match authorityEnd t with
+    | none => none
+    | some e => if e ≠ t.length then none else some []
+  | .found _ rest =>
+    match authorityEnd rest with
+    | none => none
+    | some e =>
+      if e = 0 then none   -- "authority is required when absolute"
+      else
+        match pathScan (rest.drop e) with
+        | none => none
+        | some p => some (if p.isEmpty then ['/'] else p)   -- path.rs:213 empty reads as "/"
+
+/-- `Uri::from_shared` (uri/mod.rs:292-341) + `Uri::path`.
+`none`: hyper answers `400 Bad Request` itself, the service function is not called. -/
 def pathOfTarget (t : List Char) : Option (List Char) :=
-  match t with
-  | [] => none
-  | '/' :: _ => some (t.takeWhile (! isPathEnd ·))          -- origin-form
-  | ['*'] => some ['*']                                      -- asterisk-form
-  | _ =>
-    match stripPrefix httpScheme t with
-    | some rest =>                                           -- absolute-form
-      let afterAuth := rest.dropWhile (fun c => !(c = '/' || isPathEnd c))
-      match afterAuth with
-      | '/' :: _ => some (afterAuth.takeWhile (! isPathEnd ·))
-      | _ => some ['/']                                      -- empty path of an absolute URI reads as "/"
-    | none =>
-      -- authority-form (`host`, `host:port`): no path at all; anything with `/ ? #` in it is malformed
-      if t.any (fun c => c = '/' || isPathEnd c) then none else some []
+  if utf8Len t > 65534 then none   -- `MAX_LEN` (hyper answers 414 for these, role.rs:172)
+  else
+    match t with
+    | [] => none
+    | ['/'] => some ['/']
+    | ['*'] => some ['*']
+    | '/' :: _ => pathScan t       -- origin-form
+    | _ => parseFull t             -- (a single other byte: `Authority::from_shared`, the same outcome)
+
+/-- `httparse`'s test on the bytes of the request-target (httparse 1.10.1 lib.rs:69-71 `URI_MAP`:
+`b'!'..=0x7e | 0x80..=0xFF`); anything else and hyper answers 400 before `Uri` is consulted. -/
+def httparseTargetOk (t : List Char) : Bool := t.all fun c => 0x21 ≤ c.toNat && c.toNat ≠ 0x7F
+
+/-! ## The wire level: what one request line + header block gives, and whole connections
+
+`serveWire` composes the three steps between the bytes of a request and the response:
+the method token (`http::Method::from_bytes`: case-sensitive, anything unknown is an extension method),
+the request-target (`pathOfTarget`; `none` = hyper answers 400 itself and closes the connection), and
+the service function. `serveCase` runs a whole history: any number of connections (numbered), the
+requests interleaved in any order, possibly against different server configurations. The service
+function is called once per request with nothing but that request (`run_server`, server.rs:218-238:
+the closure passed to `service_fn` captures only clones of the immutable start-up values), so the only
+state a history has is which connections are still open: a connection ends when the service function
+panics (the connection task dies), when hyper rejects the request line, or when the keep-alive rules of
+HTTP end it (`Connection: close`; HTTP/1.0 without `Connection: keep-alive`). -/
+
+/-- `http::Method::from_bytes` restricted to the distinctions the service function makes -/
+def methodOfToken : List Char → Method
+  | ['G','E','T'] => .get
+  | ['P','O','S','T'] => .post
+  | ['O','P','T','I','O','N','S'] => .options
+  | ['H','E','A','D'] => .head
+  | ['P','U','T'] => .put
+  | ['D','E','L','E','T','E'] => .delete
+  | ['P','A','T','C','H'] => .patch
+  | _ => .other
+
+structure WireReq where
+  /-- the method token of the request line -/
+  methodTok : List Char
+  /-- the request-target of the request line -/
+  target : List Char
+  /-- `HTTP/1.1` (true) or `HTTP/1.0` (false) -/
+  http11 : Bool
+  headers : Headers
+  bodyUtf8 : Bool
+deriving Repr, DecidableEq
+
+inductive WireOut
+  | resp (r : Resp)
+  | panic      -- the service function panicked: connection dropped without a response
+  | rejected   -- hyper answers `400 Bad Request` itself (no headers of ours) and closes
+  | closed     -- the connection was already over when the request was sent
+deriving Repr, DecidableEq
+
+def serveWire (cfg : Cfg) (w : WireReq) : WireOut :=
+  if !httparseTargetOk w.target then .rejected else
+  match pathOfTarget w.target with
+  | none => .rejected
+  | some p =>
+    match service cfg { method := methodOfToken w.methodTok, path := p, headers := w.headers,
+                        bodyUtf8 := w.bodyUtf8 } with
+    | .resp r => .resp r
+    | .panic => .panic
+
+/-- does an outcome expose anything: a cross-origin permission header, profile / API data, or a
+dropped connection (the observable trace of a panic)? -/
+def WireOut.exposes : WireOut → Bool
+  | .resp r => r.anyCors || r.kind.isData
+  | .panic => true
+  | .rejected => false
+  | .closed => false
+
+def connectionName : List Char := ['c','o','n','n','e','c','t','i','o','n']
+def closeTok : List Char := ['c','l','o','s','e']
+def keepAliveTok : List Char := ['k','e','e','p','-','a','l','i','v','e']
+
+/-- hyper's keep-alive decision for a request (the value of `Connection` compared as one token,
+ASCII-case-insensitively — the harness sends no comma lists). Part of the hyper layer, like
+`pathOfTarget`: checked by the correspondence run only. -/
+def keepAlive (w : WireReq) : Bool :=
+  match hdrGet w.headers connectionName with
+  | some v => if w.http11 then !(hdrNameEq v closeTok) else hdrNameEq v keepAliveTok
+  | none => w.http11
+
+/-- does the connection survive this exchange? (An HTTP/1.0 client cannot be sent a body of unknown
+length — the streamed profile file, server.rs:337-340 — other than by closing the connection.) -/
+def survives (w : WireReq) : WireOut → Bool
+  | .resp r => keepAlive w && (w.http11 || !(match r.kind with | .profile _ => true | _ => false))
+  | _ => false
+
+/-- One step of a history: request `(connection number, configuration of the server it talks to,
+request)`; `dead` = the connections that are over. -/
+def serveStep (dead : List Nat) (x : Nat × Cfg × WireReq) : WireOut × List Nat :=
+  if dead.contains x.1 then (.closed, dead)
+  else
+    let o := serveWire x.2.1 x.2.2
+    (o, if survives x.2.2 o then dead else x.1 :: dead)
+
+/-- A history: the requests in the order they are sent. -/
+def serveCase : List Nat → List (Nat × Cfg × WireReq) → List WireOut
+  | _, [] => []
+  | dead, x :: rest => (serveStep dead x).1 :: serveCase (serveStep dead x).2 rest
+
+/-- The request-target literally carries the prefix at the start of its path: either the target
+begins with it (origin-form), or it is `<scheme>://<authority>` + prefix… (absolute-form) with a scheme
+free of `: / ? #` and a non-empty authority free of `/ ? #` — so the prefix begins at the first `/`
+after the first `://`. -/
+def LiteralUnder (pfx t : List Char) : Prop :=
+  pfx <+: t ∨ ∃ sch auth : List Char,
+    (∀ c ∈ sch, c ≠ ':' ∧ c ≠ '/' ∧ c ≠ '?' ∧ c ≠ '#') ∧ (∀ c ∈ auth, c ≠ '/' ∧ c ≠ '?' ∧ c ≠ '#') ∧
+    auth ≠ [] ∧ (sch ++ ':' :: '/' :: '/' :: auth ++ pfx) <+: t
 
 end Server
